@@ -149,7 +149,8 @@ def one_case(ctx, rng):
     elif rng.random() < 0.5:
         sat = rng.choice([0.5, 0.75, 1.0, 1.25]) * float(net.sgen.sn_mva.values[0])
     else:
-        sat = [rng.choice([0.5, 0.75, 1.0, 1.25]) * float(s) for s in net.sgen.sn_mva.values]
+        # per-element limits; NaN entries switch the saturation off for that element only
+        sat = [float("nan") if rng.random() < 0.3 else rng.choice([0.5, 0.75, 1.0, 1.25]) * float(s) for s in net.sgen.sn_mva.values]
     idx = list(net.sgen.index)
     ctrl = DERController(net, idx, q_model=qmodel, pqv_area=area, saturate_sn_mva=sat, q_prio=q_prio, damping_coef=damping)
     sat_arr = np.broadcast_to(np.asarray(ctrl.saturate_sn_mva, dtype=float), (n,))
@@ -265,7 +266,7 @@ def one_case(ctx, rng):
                 touched += 1
     ctx.case(desc, nontrivial=touched > 0, sample={"case": {k: desc[k] for k in ("n", "sgen", "area", "q_prio", "damping", "saturate_sn_mva")}})
     ctx.count("area_" + akind)
-    ctx.count("sat_" + ("nan" if all(x != x for x in sat_arr) else "on"))
+    ctx.count("sat_" + ("nan" if all(x != x for x in sat_arr) else ("mixed_nan" if any(x != x for x in sat_arr) else "on")))
     ctx.count("damping_%s" % damping)
     return terms, impls, desc
 
